@@ -372,6 +372,22 @@ class CFG:
             t = self._block(s.body, [bt])
             f = self._block(s.orelse, [bf]) if s.orelse else [bf]
             return t + f
+        if isinstance(s, ast.Match):
+            c = self._expr(s.subject, preds)
+            outs, fall = [], c
+            for case in s.cases:
+                b = self._new("branch", ("case " + norm(case.pattern))[:80], case.pattern)
+                b.cond = "T"
+                self._link(fall, b)
+                g = self._expr(case.guard, [b]) if case.guard is not None else [b]
+                outs += self._block(case.body, g)
+                nf = self._new("branch", ("not case " + norm(case.pattern))[:80], case.pattern)
+                nf.cond = "F"
+                self._link(fall, nf)
+                if case.guard is not None:
+                    self._link(g, nf)
+                fall = [nf]
+            return outs + fall
         if isinstance(s, (ast.For, ast.AsyncFor, ast.While)):
             if isinstance(s, ast.While):
                 head = self._new("loop", norm(s.test)[:60], s)
